@@ -204,6 +204,75 @@ Proof.
   - intros a. rewrite leaf_of_value_and_single. apply or_leaf_refl. apply R; assumption.
 Qed.
 
+(* ---- the same for combinator trees ---- *)
+Lemma value_and_vsym ms : (forall m, In m ms -> vsym m) -> vsym (value_and ms).
+Proof.
+  intros H a b. rewrite !value_and_is_conj. f_equal.
+  - apply forallb_pointwise. intros m Hm. unfold answers, says. rewrite (H m Hm a b). reflexivity.
+  - apply existsb_pointwise. intros m Hm. unfold answers. rewrite (H m Hm a b). reflexivity.
+Qed.
+Lemma value_or_vsym ms : (forall m, In m ms -> vsym m) -> vsym (value_or ms).
+Proof.
+  intros H a b. rewrite !value_or_is_disj. f_equal.
+  - apply existsb_pointwise. intros m Hm. unfold answers, says. rewrite (H m Hm a b). reflexivity.
+  - apply existsb_pointwise. intros m Hm. unfold answers. rewrite (H m Hm a b). reflexivity.
+Qed.
+Lemma value_and_vrefl ms : (forall m, In m ms -> vrefl m) -> vrefl (value_and ms).
+Proof.
+  intros H a. left. unfold says. rewrite value_and_is_conj. cbn [fst].
+  apply forallb_forall. intros m Hm. destruct (H m Hm a) as [S|A]; [rewrite S; apply orb_true_r|rewrite A; reflexivity].
+Qed.
+Lemma value_or_vrefl ms : (forall m, In m ms -> vrefl m) -> vrefl (value_or ms).
+Proof.
+  intros H a. unfold says, answers. rewrite value_or_is_disj. cbn [fst snd].
+  destruct (existsb (fun e => answers e a a) ms) eqn:E; [left|right; reflexivity].
+  apply existsb_exists in E. destruct E as (m & Hm & A). apply existsb_exists. exists m. split; [exact Hm|].
+  rewrite A. destruct (H m Hm a) as [S|A']; [exact S|congruence].
+Qed.
+Lemma value_and_vsing ms : (forall m, In m ms -> vsing m) -> vsing (value_and ms).
+Proof. intros H a b S. unfold answers. rewrite value_and_is_conj. cbn [snd]. apply none_answer_sing; assumption. Qed.
+Lemma value_or_vsing ms : (forall m, In m ms -> vsing m) -> vsing (value_or ms).
+Proof. intros H a b S. unfold answers. rewrite value_or_is_disj. cbn [snd]. apply none_answer_sing; assumption. Qed.
+
+Lemma tree_lift (P : vcmp -> Prop) :
+  (forall ms, (forall m, In m ms -> P m) -> P (value_and ms)) ->
+  (forall ms, (forall m, In m ms -> P m) -> P (value_or ms)) ->
+  forall t, (forall v, In v (tree_leaves t) -> P (model_v v)) -> P (model_t t).
+Proof.
+  intros Ha Ho t. induction t as [l|ts IH|ts IH] using ctree_ind'; intros H.
+  - exact (H l (or_introl eq_refl)).
+  - unfold model_t. cbn [tree_cmp]. apply Ha. intros m Hm. apply in_map_iff in Hm. destruct Hm as (c & <- & Hc).
+    rewrite Forall_forall in IH. apply (IH c Hc). intros v Hv. apply H. cbn [tree_leaves]. apply (leaves_of_child c); assumption.
+  - unfold model_t. cbn [tree_cmp]. apply Ho. intros m Hm. apply in_map_iff in Hm. destruct Hm as (c & <- & Hc).
+    rewrite Forall_forall in IH. apply (IH c Hc). intros v Hv. apply H. cbn [tree_leaves]. apply (leaves_of_child c); assumption.
+Qed.
+
+Lemma single_in {A} (P : A -> Prop) (x : A) : P x -> forall m, In m [x] -> P m.
+Proof. intros H m [<-|[]]. exact H. Qed.
+
+(* cmp.Equal(t) for ANY tree of ValueAnd / ValueOr over the tolerance comparers is symmetric on all
+   pairs of possibly-nil wf messages ... *)
+Theorem model_tree_symmetric : forall t x y, existsb is_durp (tree_leaves t) = false -> opt_wf x = true -> opt_wf y = true ->
+  model_tree t x y = model_tree t y x.
+Proof.
+  intros t x y Nd Wx Wy. unfold model_tree. rewrite !cmp_equal_is_spec by assumption. apply spec_top_sym; try assumption.
+  - apply and_leaf_sym. apply single_in. apply (tree_lift vsym value_and_vsym value_or_vsym).
+    intros v Hv. apply model_v_sym. apply (not_durp_in (tree_leaves t)); assumption.
+  - apply and_leaf_sing. apply single_in. apply (tree_lift vsing value_and_vsing value_or_vsing).
+    intros v _. apply model_v_sing.
+Qed.
+
+(* ... and reflexive for non-negative tolerances *)
+Theorem model_tree_reflexive : forall t x, forallb vcfg_guard (tree_leaves t) = true -> existsb is_durp (tree_leaves t) = false ->
+  opt_wf x = true -> model_tree t x x = true.
+Proof.
+  intros t x G Nd Wx. unfold model_tree. rewrite cmp_equal_is_spec by assumption. apply spec_top_refl; try assumption.
+  apply and_leaf_refl. apply single_in. apply (tree_lift vrefl value_and_vrefl value_or_vrefl).
+  intros v Hv. apply model_v_refl.
+  - rewrite forallb_forall in G. apply (G _ Hv).
+  - apply (not_durp_in (tree_leaves t)); assumption.
+Qed.
+
 (* ================= the judge is sound with respect to the model ================= *)
 Lemma b4_eqb_eq a b : b4_eqb a b = true -> a = b.
 Proof.
@@ -242,12 +311,16 @@ Theorem obs_sound : forall x y ps o,
   opt_guard x = true -> opt_guard y = true -> obs_guard o = true ->
   ps = (proto_equal (strip_opt x) (strip_opt y), proto_equal (strip_opt y) (strip_opt x)) ->
   agrees_obs x y o = true ->
-  match o with OEq e _ => obs_class x y (OEq e (true, true, true, true)) = None | OComb _ _ _ _ => True end ->
+  match o with
+  | OEq e _ => obs_class x y (OEq e (true, true, true, true)) = None
+  | OComb _ _ _ _ => True
+  | OTree t _ => obs_class x y (OTree t (true, true, true, true)) = None
+  end ->
   ok_obs x y ps o = true.
 Proof.
   intros x y ps o Gx Gy Go Hps A C.
   pose proof (opt_guard_wf _ Gx) as Wx. pose proof (opt_guard_wf _ Gy) as Wy.
-  destruct o as [e v|is_or es comps v].
+  destruct o as [e v|is_or es comps v|t v].
   - cbn [agrees_obs] in A. apply b4_eqb_eq in A. subst v. cbn [obs_guard] in Go.
     destruct (class_none_tree_ok e x y Gx Gy C) as (Nd & Tx & Ty).
     cbn [ok_obs]. unfold ok_eq, four. rewrite Nd.
@@ -264,6 +337,16 @@ Proof.
   - cbn [agrees_obs] in A. apply andb_true_iff in A. destruct A as [A1 A2].
     apply list_b4_eq in A1. apply b4_eqb_eq in A2. subst comps v.
     pose proof (comb_model_ok is_or es x y) as K. cbn [ok_obs] in K |- *. exact K.
+  - cbn [agrees_obs] in A. apply b4_eqb_eq in A. subst v. cbn [obs_guard] in Go.
+    assert (C' : obs_class x y (OEq (EAnd (tree_leaves t)) (true, true, true, true)) = None) by exact C.
+    destruct (class_none_tree_ok (EAnd (tree_leaves t)) x y Gx Gy C') as (Nd & Tx & Ty).
+    pose proof Nd as Nd'. unfold has_durp in Nd'. cbn [cfg_vs] in Nd'.
+    pose proof Go as Go'. unfold ecfg_guard in Go'. cbn [cfg_vs] in Go'.
+    cbn [ok_obs]. unfold four.
+    rewrite (model_tree_reflexive t x Go' Nd' Wx), (model_tree_reflexive t y Go' Nd' Wy).
+    pose proof (model_tree_symmetric t y x Nd' Wy Wx) as Sy.
+    rewrite (tree_model_is_ideal t y x Go Nd Ty Tx) in Sy |- *. rewrite (tree_model_is_ideal t x y Go Nd Tx Ty) in Sy |- *.
+    rewrite Sy, !Bool.eqb_reflx. reflexivity.
 Qed.
 
 (* ---- streams of a Value ---- *)
@@ -314,6 +397,7 @@ Definition in_scope (c : c16case) : bool :=
       forallb (fun o => match o with
                         | OEq e _ => match obs_class x y (OEq e (true, true, true, true)) with None => true | Some _ => false end
                         | OComb _ _ _ _ => true
+                        | OTree t _ => match obs_class x y (OTree t (true, true, true, true)) with None => true | Some _ => false end
                         end) os
   | KStream e seed writes _ => stream_scope e seed writes
   | KCollStream e seed writes _ => stream_scope e (Some seed) writes
@@ -337,7 +421,7 @@ Theorem judge_sound : forall c,
 Proof.
   intros c A G S. unfold agrees in A. apply andb_true_iff in A. destruct A as [_ A].
   unfold C16_guard in G. unfold C16_ok. unfold in_scope in S.
-  destruct (unwrap c) as [x y pr ps os|e seed writes emitted|e seed writes emitted| | | |]; try discriminate S.
+  destruct (unwrap c) as [x y pr ps os|e seed writes emitted|e seed writes emitted| | | | |]; try discriminate S.
   - cbn [agrees_core guard_core ok_core] in *.
     apply andb_true_iff in A. destruct A as [A A3]. apply andb_true_iff in A. destruct A as [_ A2].
     apply andb_true_iff in G. destruct G as [G G3]. apply andb_true_iff in G. destruct G as [Gx Gy].
@@ -346,8 +430,9 @@ Proof.
       apply Bool.eqb_prop in P1. apply Bool.eqb_prop in P2. destruct ps as [p1 p2]. cbn [fst snd] in *. congruence. }
     apply forallb_forall. intros o Ho. rewrite forallb_forall in A3, G3, S.
     apply (obs_sound x y ps o Gx Gy (G3 _ Ho) Hps (A3 _ Ho)).
-    specialize (S _ Ho). destruct o as [e v|]; [|exact I].
-    destruct (obs_class x y (OEq e (true, true, true, true))); [discriminate S|reflexivity].
+    specialize (S _ Ho). destruct o as [e v| |t v]; [|exact I|].
+    + destruct (obs_class x y (OEq e (true, true, true, true))); [discriminate S|reflexivity].
+    + destruct (obs_class x y (OTree t (true, true, true, true))); [discriminate S|reflexivity].
   - cbn [agrees_core guard_core ok_core] in *.
     apply andb_true_iff in G. destruct G as [G Ge]. apply andb_true_iff in G. destruct G as [Gs Gw].
     destruct (stream_scope_tree_ok e seed writes Gs Gw S) as (Nd & Ts & Tw).
@@ -369,4 +454,6 @@ Qed.
 
 Print Assumptions model_symmetric.
 Print Assumptions model_reflexive.
+Print Assumptions model_tree_symmetric.
+Print Assumptions model_tree_reflexive.
 Print Assumptions judge_sound.
